@@ -13,11 +13,14 @@
 //! `Mat`, and the matrix every check runs on is `ScoringMatrix::new(background, cells)`).
 
 use generic_array::GenericArray;
-use lightmotif::abc::{Background, Dna, Pseudocounts};
+use lightmotif::abc::{Background, Dna, Protein, Pseudocounts};
 use lightmotif::dense::DenseMatrix;
-use lightmotif::num::U5;
+use lightmotif::num::{U21, U5};
 use lightmotif::pwm::{CountMatrix, ScoringMatrix};
 use serde_json::{json, Value};
+
+/// Protein ranks carrying the four DNA columns in `Mat::scoring_protein` (scattered, the last non-wildcard rank included).
+pub const PROTEIN_SUPPORT: [usize; 4] = [19, 2, 11, 6];
 
 /// Absolute allowance on every probability comparison (DESIGN §C11: f32 backgrounds do not sum to 1).
 pub const EPS_P: f64 = 1e-6;
@@ -129,6 +132,47 @@ impl Mat {
     pub fn scoring(&self) -> ScoringMatrix<Dna> {
         let data = DenseMatrix::<f32, U5>::from_rows(self.rows.iter().map(|r| &r[..]).collect::<Vec<_>>());
         ScoringMatrix::new(self.background(), data)
+    }
+
+    /// The same score distribution carried by a PROTEIN matrix (TfmPvalue is generic over the alphabet; its symbol
+    /// loops run to K-1 = 20): DNA column k sits at protein rank PROTEIN_SUPPORT[k] with the DNA background count,
+    /// every other residue has background count 0 and a copy of a DNA cell of its row (so the per-row minima and
+    /// maxima, hence ranges and offsets, are unchanged), X carries the DNA wildcard cell. Words over the four
+    /// supported residues have exactly the DNA probabilities and scores: `Exact::new(self)` is the oracle for both.
+    /// Only for backgrounds that give the DNA wildcard no mass.
+    pub fn scoring_protein(&self) -> Option<ScoringMatrix<Protein>> {
+        if self.bg_counts[4] != 0 {
+            return None;
+        }
+        let mut counts = [0usize; 21];
+        for k in 0..4 {
+            counts[PROTEIN_SUPPORT[k]] = self.bg_counts[k];
+        }
+        let rows: Vec<[f32; 21]> = self
+            .rows
+            .iter()
+            .map(|r| {
+                let mut o = [0f32; 21];
+                for j in 0..20 {
+                    o[j] = r[j % 4];
+                }
+                for k in 0..4 {
+                    o[PROTEIN_SUPPORT[k]] = r[k];
+                }
+                o[20] = r[4];
+                o
+            })
+            .collect();
+        let bg = Background::<Protein>::from_counts(&GenericArray::<usize, U21>::from(counts)).expect("embedded background must be valid");
+        let data = DenseMatrix::<f32, U21>::from_rows(rows.iter().map(|r| &r[..]).collect::<Vec<_>>());
+        Some(ScoringMatrix::new(bg, data))
+    }
+
+    /// A copy whose class (hence every signature) says that the protein embedding was checked.
+    pub fn as_protein_embedded(&self) -> Mat {
+        let mut m = self.clone();
+        m.class = format!("protein-embedded,{}", self.class);
+        m
     }
 
     /// The rows as a Rust array literal (for the `rust_repro` snippets).
